@@ -150,7 +150,9 @@ def rvalue(r, ck, cspec, malformed):
         n = cspec
         opts = [r.randint(0, max(n - 1, 0)), r.randint(-4, n + 4), float(r.randint(0, max(n - 1, 0))), r.uniform(-1, n + 1), n - 1 + 0.999,
                 n - 1e-9, -1e-9, -0.999, float("inf"), float("-inf"), 1e300, -1e300, np.int64(r.randint(0, n)), np.float64(r.uniform(0, n)),
-                bool(r.getrandbits(1)), 0.5, n - 0.5]
+                bool(r.getrandbits(1)), 0.5, n - 0.5,
+                # reduced-precision numpy scalars at and beyond the last index (a bound that is not an integer rounds to n in float32 / float16)
+                np.float32(n), np.float32(n + 0.25), np.float32(n - 1), np.float16(n), np.float32("inf"), np.float32(r.uniform(-1, n + 1)), np.float16(r.randint(0, max(n - 1, 0)))]
         if malformed: opts += [float("nan")] * 6
         return r.choice(opts)
     if ck == "perm":
@@ -363,7 +365,7 @@ def replay(rep):
     var = build(m["kind"], tuple(m["spec"]) if isinstance(m["spec"], list) and m["kind"] in ("cont", "contmulti", "multiobj") else m["spec"])
     print("variable:", var)
     if "value" in m:
-        v = eval(m["value"], {"np": np, "inf": float("inf"), "nan": float("nan"), "array": np.array, "float64": np.float64, "int64": np.int64, "float32": np.float32})
+        v = eval(m["value"], {"np": np, "inf": float("inf"), "nan": float("nan"), "array": np.array, "float64": np.float64, "int64": np.int64, "float32": np.float32, "float16": np.float16})
         out = var.correct(v)
         print("correct:", out, " correct twice:", var.correct(out))
         try: print("decode:", var.decode(out))
